@@ -185,33 +185,54 @@ class C16(Property):
     thorough_cases = 12000
     design_ref = "DESIGN.md §6/C16"
     level_text = ("Unbounded Rocq theorems over executable models transcribing rollingwindow.go, safemap.go, fifo.go, "
-                  "ring.go, set.go and cache.go (keyLru): for every size/limit/threshold and every operation sequence, "
-                  "Reduce returns bucket-wise exactly the values added in the last `size` interval indices (minus the "
-                  "current one when ignored); SafeMap refines an association map through every generation switch; Queue "
-                  "is a FIFO through growth and wrap; Ring shows the last n adds in order; Set is decided by the last "
-                  "Add/Remove per key; the Cache returns the latest value unless deleted/expired/evicted, never exceeds its "
-                  "limit, evicts the entry with the oldest last use, and Take loads only on a miss. Each model is tied to "
-                  "the Go code by step-by-step differential execution through the public API (virtual clock for the window).")
+                  "ring.go, set.go and cache.go (keyLru), the cache also composed with C12's timing-wheel model: for every "
+                  "size/limit/threshold and every operation sequence, Reduce returns bucket-wise exactly the values added in "
+                  "the last `size` interval indices (minus the current one when ignored); SafeMap refines an association map "
+                  "through every generation switch (and the branch of Set that no history reaches is proved dead); Queue is a "
+                  "FIFO through growth and wrap; Ring shows the last n adds in order; Set is decided by the last Add/Remove "
+                  "per key; the Cache returns the latest value unless deleted/expired/evicted, never exceeds its limit, "
+                  "evicts the entry with the oldest last use, Take loads only on a miss and a failed load stores nothing; "
+                  "with the wheel, an entry lives floor(max(d,interval)/interval) ticks from its latest write. The "
+                  "references used by the decidable check are proved equal to the models (cache+wheel: "
+                  "cachew_refines_stamp_reference), and the linearisation search used for concurrent histories is proved "
+                  "exact. Each model is tied to the Go code by step-by-step differential execution of generated multi-phase "
+                  "histories (virtual clock, tick-by-tick wheel), plus free-running goroutines checked for linearisability.")
     level_note = ("Trusted: Coq kernel + vm_compute; hand-written models; correspondence on generated histories only; "
-                  "core/timex/relativetime.go is replaced by the virtual-clock overlay at build time; the cache's timing wheel "
-                  "is C12's subject and enters here as the explicit event Expire k (real-time expiry is sampled in the "
-                  "thorough tier with the +-5% / one-tick window treated as 'either'); singleflight concurrency of Take is C07.")
-    rule = ("cases by kind: window (size 1..40, interval 1..250ms, 10..70 add/reduce steps with time advances landing on, "
-            "one before and one after bucket boundaries and spans of size-1/size/size+1 buckets), safemap (random ops; bulk "
-            "runs past maxDeletion with <,>= copyThreshold live keys), queue (size 1..4, growth+wrap), ring (n 1..6, >2n adds), "
-            "set (typed keys), cache (limit 0..5, set/get/del/take, trailing probe of all keys). non-trivial = window: a "
+                  "core/timex/{relativetime,ticker}.go are replaced by overlays at build time and "
+                  "core/collection/zz_verif_c16.go is added (read-only accessors + one hook in front of the cache's single "
+                  "flight); real-time expiry is sampled in the thorough tier (+-5% / one tick treated as 'either'); "
+                  "singleflight itself is C07, the wheel C12. Concurrency: each method is one critical section except "
+                  "Cache.Take (miss -> load -> store) and the hand-over of a single-flight result; see notes/C16.md.")
+    rule = ("cases by kind: window (random + phased: bursts inside one interval, idle gaps of size-1/size/size+1/2size/10size/"
+            "10^17ns, landings one before/on/after a boundary; recording bucket or the package's Bucket[T]), safemap (random "
+            "with stopped Ranges; phased through both migrations with >= copyThreshold live keys, every threshold crossed one "
+            "operation at a time), queue (random + phased fill/drain partially/refill past capacity: >= 2 growths while "
+            "wrapped), ring (random + phased runs of n-1..3n adds, index folded back several times; returned slices checked "
+            "for aliasing), set (typed keys incl. uint64 and the empty string, managed and unmanaged), cache (limit -1..5, "
+            "random + phased fill/touch/evict/re-add/Del-Set/failed loads/a Set racing a Take's miss/a loader using the cache; "
+            "key sets and sizes read without touching the recency order), cachew (wheel driven tick by tick, limit 0..3, "
+            "expiries -0.5..4.5 intervals), cache_take2 (two concurrent Takes, first loader gated), lin (2..4 free-running "
+            "goroutines on one queue/ring/cache/safemap/window after a sequential prefix); 15% of the sequential cases drive a "
+            "second instance alongside. Values 0 stand for nil, key 0 for the empty string / nil key. non-trivial = window: a "
             "boundary was crossed and a Reduce returned a non-empty bucket; safemap: a Get hit after a Del or >= maxDeletion "
             "deletions; queue: a Put into a full buffer (growth) with items in flight; ring: a Take after more than n adds; "
-            "set: both a positive and a negative Contains; cache: more distinct keys written than the limit, or a Take miss. "
+            "set: both a positive and a negative Contains; cache: more distinct keys written than the limit, or a Take miss; "
+            "cachew: an entry seen present and later, after ticks, absent; lin: two calls of different goroutines overlapped. "
             "distinct = canonical JSON hash of the case")
     trusted_base = [
-        "models theories/C16/Model.v and theories/Lib/RollingWindow.v are hand-written; tie = correspondence run (harness/cmd/c16) on generated histories",
-        "core/timex/relativetime.go is replaced by harness/overlay/timex/relativetime.go (virtual clock) when the executor is built",
-        "Go maps, container/list, sync, the timing wheel (C12) and singleflight (C07) are not modelled here",
+        "models theories/C16/Model.v, ModelW.v and theories/Lib/RollingWindow.v are hand-written; tie = correspondence run (harness/cmd/c16) on generated histories",
+        "core/timex/relativetime.go and core/timex/ticker.go are replaced by overlays (virtual clock, hookable ticker); harness/overlay/collection/zz_verif_c16.go is added to package collection (Cache.size / key snapshot, one scripted action before the cache's single flight)",
+        "Go maps, container/list, sync, singleflight (C07) are not modelled here; the timing wheel is C12's model",
+        "tools/c16sim.py steers the generators (where the structure stands); it judges nothing",
     ]
-    assumptions = ["keys and values are compared with Go == on int64/int/uint/string (model: Z)",
-                   "operations on one object are sequential (every method holds the object's lock for its whole body)",
-                   "RollingWindow: timex.Now() is non-decreasing and never before the window's creation time"]
+    assumptions = ["keys and values are compared with Go == on int64/int/uint/uint64/string/nil (model: Z)",
+                   "sequential theorems: operations on one object are sequential; concurrent use is covered by the linearisability "
+                   "monitor, which assumes what the code provides: every method is one critical section under the object's lock, "
+                   "except Cache.Take (miss, load, store are separate steps: a Set of the same key in between is overwritten) and "
+                   "a Take that is handed the result of an overlapping Take's single flight (modelled as CJoin)",
+                   "RollingWindow: timex.Now() is non-decreasing and never before the window's creation time",
+                   "Cache expiries are positive (TimingWheel.SetTimer refuses d <= 0 and SetWithExpire ignores the error; modelled, not judged)",
+                   "Set is documented as not thread-safe and is not part of the concurrent monitor"]
 
     # ------------------------------------------------------------------ translators / build
     consts = None
@@ -892,9 +913,22 @@ class C16(Property):
 
     # ------------------------------------------------------------------ run
     def execute(self, cases, ctx):
-        rc, out, res = vlib.go_run(self.bin, cases, tag="c16", timeout=1500)
-        if rc != 0 or len(res) != len(cases):
-            raise ExecError("c16 executor rc=%s: %s" % (rc, out[-2000:]))
+        # every Cache leaves two goroutines behind (wheel loop, stat loop; there is no Close) and the
+        # wheel-driven kinds poll all goroutine stacks after each operation: bound the population of
+        # one executor process
+        chunks = [cases[i:i + 800] for i in range(0, len(cases), 800)] or [cases]
+        if len(chunks) == 1:
+            outs = [vlib.go_run(self.bin, cases, tag="c16", timeout=1500)]
+        else:
+            import concurrent.futures
+            with concurrent.futures.ThreadPoolExecutor(max_workers=4) as ex:
+                outs = list(ex.map(lambda ic: vlib.go_run(self.bin, ic[1], tag="c16_%d" % ic[0], timeout=1500),
+                                   enumerate(chunks)))
+        res = []
+        for (rc, out, r), ch in zip(outs, chunks):
+            if rc != 0 or len(r) != len(ch):
+                raise ExecError("c16 executor rc=%s: %s" % (rc, out[-2000:]))
+            res += r
         obs = []
         for c, r in zip(cases, res):
             if r.get("err"):
